@@ -240,6 +240,40 @@ def run(pid, tier, replay=None):
             if state not in ("old", "new"):
                 chk.violation("C15:wallet_file_neither_complete_old_nor_complete_new_after_a_save_on_a_full_file_system",
                               {"bytes_the_file_system_accepts": L, "new_wallet_bytes": newsize_, "file_state": state, "save": pr.stdout.strip()[:200]}, {"clause": "short_write"})
+        # the same for the receive script as a whole (its real main(): whatever it does to the wallet file before and after save_wallet)
+        os.chdir(d)
+        try:
+            with open("wallet.json", "w") as f:
+                json.dump(old_proj, f, indent=4)
+        finally:
+            os.chdir(cwd)
+        p = subprocess.run(["/venv/bin/python", os.path.join(ROOT, "harness/crashrun.py"), sk.REPO, "receive_script", "0"], cwd=d, capture_output=True, text=True)
+        m = [l for l in p.stdout.splitlines() if l.startswith("BOUNDARIES")]
+        if p.returncode != 0 or not m:
+            return machinery_failure(pid, "crashrun (receive script) failed: %s %s" % (p.returncode, p.stderr[-800:]))
+        nbr = int(m[0].split()[1])
+        new_after_script = json.load(open(os.path.join(d, "wallet.json")))
+        for k in range(1, nbr + 1) if nbr <= 40 else sorted(set(list(range(1, 15)) + rng.sample(range(15, nbr), 20) + [nbr - 1, nbr])):
+            os.chdir(d)
+            try:
+                for fn in os.listdir("."):
+                    if fn.startswith("wallet.json"):
+                        os.remove(fn)
+                with open("wallet.json", "w") as f:
+                    json.dump(old_proj, f, indent=4)
+            finally:
+                os.chdir(cwd)
+            subprocess.run(["/venv/bin/python", os.path.join(ROOT, "harness/crashrun.py"), sk.REPO, "receive_script", str(k)], cwd=d, capture_output=True, text=True)
+            chk.case(("crash_receive_script", label, k), nontrivial=True)
+            try:
+                got = json.load(open(os.path.join(d, "wallet.json")))
+                state = "old" if got == old_proj else "new" if got == new_after_script else "other"
+            except Exception as e:
+                state = "missing or unreadable: %r" % e
+            if state not in ("old", "new"):
+                chk.violation("C15:wallet_file_neither_complete_old_nor_complete_new_after_a_crash_of_the_receive_script",
+                              {"crash_before_boundary": k, "of": nbr, "file_state": state}, {"clause": "crash_script"})
+        chk.extra.setdefault("crash_points_of_the_receive_script", {})[label] = nbr
         shutil.rmtree(d, ignore_errors=True)
 
     # ---- (c2) the miner's main loop (the real MinerWatcher.__call__: start-up, message loop, shutdown path) hands keys out too: runs that
